@@ -21,7 +21,10 @@ for line in open(sys.argv[1],errors='replace'):
 passed-=failed
 base=set(json.load(open('/root/.vp/BASELINE.json'))['stable_pass'])
 missing=sorted(base-passed)
-print(f"baseline stable={len(base)} passed_now={len(passed)} failed_now={len(failed)} stable_missing={len(missing)}")
-for m in missing[:40]: print("  MISSING", m)
-sys.exit(1 if missing else 0)
+# TestSortRandom subtests are named after PRNG values and differ from run to run
+hard=[m for m in missing if 'TestSortRandom' not in m]
+print(f"baseline stable={len(base)} passed_now={len(passed)} failed_now={len(failed)} stable_missing={len(missing)} (excluding randomly named TestSortRandom subtests: {len(hard)})")
+for m in hard[:40]: print("  MISSING", m)
+for m in sorted(failed)[:40]: print("  FAILED", m)
+sys.exit(1 if hard else 0)
 PY
